@@ -6,10 +6,15 @@ EXTENDS Naturals, Sequences, FiniteSets, TLC
 
 G(a, v) == IF a THEN [a |-> TRUE, v |-> v] ELSE [a |-> FALSE, v |-> TRUE]
 Must(v) == [a |-> TRUE, v |-> v]
+(* a guard whose failure matches the trigger of a recorded finding (known_findings.json): kid names the
+   finding when its trigger and residual bound hold for this event, "" otherwise *)
+GK(a, v, kid) == IF a THEN (IF v THEN [a |-> TRUE, v |-> TRUE] ELSE [a |-> TRUE, v |-> FALSE, k |-> kid]) ELSE [a |-> FALSE, v |-> TRUE]
+KnownId(g) == IF "k" \in DOMAIN g THEN g.k ELSE ""
 NoGuards == [x \in {} |-> Must(TRUE)]
 Bad(gs) == {k \in DOMAIN gs : gs[k].a /\ ~gs[k].v}
 App(gs) == {k \in DOMAIN gs : gs[k].a}
-Report(i, sc, gs) == /\ \A k \in Bad(gs) : PrintT(<<"TAG", i, sc, k>>)
+Report(i, sc, gs) == /\ \A k \in Bad(gs) : IF KnownId(gs[k]) = "" THEN PrintT(<<"TAG", i, sc, k>>)
+                                                 ELSE PrintT(<<"KNOWN", i, sc, k, KnownId(gs[k])>>)
                      /\ \A k \in App(gs) : PrintT(<<"A", i, k>>)
 (* per guard: <<evaluated, applicable, failed>> *)
 Count(cnt, gs) ==
